@@ -1,14 +1,12 @@
 package zz_verifrt
 
-// Models for the envelope properties (C16-C18): Ristretto255 scalars as opaque 32-byte values,
-// an ideal (t, n) secret sharing, and (optionally, tag "pke-contract") peer public-key encryption
-// summarised by its C12 contract.
+// Models for the envelope properties (C16-C18): Ristretto255 scalars as opaque 32-byte values and
+// an ideal (t, n) secret sharing. The optional peer public-key encryption model lives in pkemodel.go.
 
 import (
 	"io"
 	"math/big"
 
-	"github.com/aperturerobotics/bifrost/crypto"
 	"github.com/cloudflare/circl/group"
 	"github.com/cloudflare/circl/secretsharing"
 	"golang.org/x/crypto/cryptobyte"
@@ -160,44 +158,4 @@ func Model_secretsharing_Recover(t uint, shares []secretsharing.Share) (group.Sc
 		Axiom(Implies(genuine, BytesEq(res, ssSharings[k].secret)))
 	}
 	return &ModelScalar{B: res}, nil
-}
-
-// ---- peer public-key encryption summarised by its contract (C12), enabled per harness
-
-func pkeRaw(k crypto.Key) []byte {
-	b, err := k.Raw()
-	if err != nil {
-		panic("pke model: key without raw form")
-	}
-	return b
-}
-
-//gosmt:model-opt pke-contract github.com/aperturerobotics/bifrost/peer.EncryptToPubKey
-func Model_peer_EncryptToPubKey(pubKey crypto.PubKey, context string, msgSrc []byte) ([]byte, error) {
-	if pubKey == nil {
-		return nil, errModel("nil public key")
-	}
-	ct := AeadSeal(pkeRaw(pubKey), []byte(context), nil, msgSrc)
-	// real ciphertexts carry a 36-byte prefix in front of the sealed body
-	return append(make([]byte, 36), ct...), nil
-}
-
-//gosmt:model-opt pke-contract github.com/aperturerobotics/bifrost/peer.DecryptWithPrivKey
-func Model_peer_DecryptWithPrivKey(privKey crypto.PrivKey, context string, ciphertext []byte) ([]byte, error) {
-	if privKey == nil {
-		return nil, errModel("nil private key")
-	}
-	if len(ciphertext) < 36+16 {
-		return nil, errModel("short message")
-	}
-	for _, b := range ciphertext[:36] {
-		if b != 0 {
-			return nil, errModel("bad prefix")
-		}
-	}
-	pt, ok := AeadOpen(pkeRaw(privKey.GetPublic()), []byte(context), nil, ciphertext[36:])
-	if !ok {
-		return nil, errModel("decryption failed")
-	}
-	return pt, nil
 }
